@@ -24,10 +24,11 @@ RULE = (
 ASSUMPTIONS = ["dihedral / alternating conventions for n <= 2 as stated in the library's docstrings", "Greene brute force up to length 7 (8 thorough)"]
 REQUIRED = ["calls.Perm.stack_sort", "calls.Perm.pop_stack_sort", "calls.Perm.bubble_sort", "calls.Perm.quick_sort", "calls.Perm.west_2_stack_sortable",
             "calls.Bijections.simion_and_schmidt", "calls.pp.baxter", "calls.pp.simsun", "calls.pp.yt_perm_avoids_22", "ss.bijection_levels",
-            "ss.rejected", "characterisation.checked"]
+            "ss.rejected", "characterisation.checked", "derived.images", "faults.injected"]
 MIN_NONTRIVIAL = 3000
 CTX = None
 MON = None
+FAULTS = None
 
 
 def report(check, args, detail):
@@ -65,6 +66,8 @@ def post_pp(name, oracle):
     def post(args, kwargs, res, exc):
         p = tuple(args[0])
         if name.startswith("yt_") and len(p) > GREENE_MAX[CTX.tier]:
+            return
+        if isinstance(exc, monitor.InjectedFault):
             return
         CTX.ev()
         want = oracle(p)
@@ -116,13 +119,25 @@ def setup(ctx):
     m.wrap(Bijections, "simion_and_schmidt", post_ss)
     for name, oracle in PP_ORACLES.items():
         m.wrap(PP, name, post_pp(name, oracle), label="pp." + name)
+    global FAULTS
+    import permuta.permutils.groups as GR
+
+    FAULTS = monitor.FaultInjector(monitor.module_code_objects(PP, "perm_properties.py") + monitor.module_code_objects(GR, "groups.py"))
 
 
 def teardown(ctx):
+    FAULTS.close()
     MON.uninstall()
 
 
 def chk_perm(ctx, p):
+    # order matters for histories: on a fresh object the IMAGES are asked before the permutation itself
+    P2 = Perm(p)
+    for dev in ("stack_sort", "pop_stack_sort"):
+        Q = getattr(P2, dev)()
+        Q.count_stack_sorts(), Q.count_pop_stack_sorts()
+        getattr(Q, dev)().count_stack_sorts()
+    P2.count_stack_sorts(), P2.count_pop_stack_sorts(), P2.west_2_stack_sortable(), P2.west_3_stack_sortable()
     P = Perm(p)
     t = tuple(p)
     P.stack_sort(), P.pop_stack_sort(), P.bubble_sort(), P.quick_sort()
@@ -141,6 +156,15 @@ def chk_perm(ctx, p):
         if name.startswith("yt_") and len(p) > GREENE_MAX[ctx.tier]:
             continue
         getattr(PP, name)(P)
+    # history on derived objects: the images under the devices are asked first, then the permutation itself again
+    # (every call is judged by the monitors on that object's own value)
+    for dev in ("stack_sort", "pop_stack_sort", "bubble_sort", "quick_sort"):
+        Q = getattr(P, dev)()
+        Q.count_stack_sorts(), Q.count_pop_stack_sorts(), Q.stack_sortable(), Q.west_2_stack_sortable()
+        Q2 = getattr(Q, dev)()
+        Q2.count_stack_sorts(), Q2.stack_sort()
+        ctx.count("derived.images")
+    P.count_stack_sorts(), P.count_pop_stack_sorts(), P.west_3_stack_sortable(), P.stack_sort(), P.quick_sort()
 
 
 def chk_ss(ctx, p, inverse):
@@ -178,7 +202,18 @@ def chk_ss_level(ctx, n):
         report("sslevel", [n], f"dihedral_group({n}) = {got[:4]}..., definition gives {want[:4]}...")
 
 
-CHECKS = {"perm": chk_perm, "ss": chk_ss, "sslevel": chk_ss_level}
+def chk_dihedral_fault(ctx, n, k):
+    """error path: the first dihedral() query for a length is aborted at a failpoint; later queries must be right"""
+    members = [Perm([(s * i + c) % n for i in range(n)]) for s in (1, -1) for c in range(n)]
+    probe = members[k % len(members)]
+    if monitor.with_fault(FAULTS, k, lambda: PP.dihedral(probe)):
+        ctx.count("faults.injected")
+    for m in members[:: max(1, len(members) // 12)]:
+        PP.dihedral(m)  # judged by the monitor
+    PP.dihedral(Perm(list(range(1, n)) + [0][:1]) if n > 3 else probe)
+
+
+CHECKS = {"perm": chk_perm, "ss": chk_ss, "sslevel": chk_ss_level, "dihedralfault": chk_dihedral_fault}
 
 
 def plan(tier, seed):
@@ -202,6 +237,9 @@ def run(ctx, spec):
     elif spec["kind"] == "sslevels":
         for n in range(min(spec["nmax"], 8) + 2):
             chk_ss_level(ctx, n)
+        lengths = rng.sample(range(3, 80), 24)
+        for n in lengths:
+            chk_dihedral_fault(ctx, n, rng.choice([1, 2, 3, 4, 6, 9, 15, 30, 60]))
         ctx.sample({"simion_schmidt_levels": list(range(spec["nmax"] + 2))})
     else:
         for _ in range(spec["count"]):
